@@ -20,7 +20,7 @@ META = {
         'grammar can construct, __repr__ (resolved through the MRO) is closed: constant head, every text-bearing '
         'field under %r (builtin reprs are closed by the library); (D3) parse_filter demands parseAll=True and the '
         'template is one def with one return expression; (D4) no open/import/os/subprocess/socket/eval/compile call '
-        'in the filter modules, exec only in the wrapper, Grid.filter stores nothing through self.  Not decided: '
+        'in the filter modules, exec only in the wrapper, Grid.filter stores nothing through self; (D5) the value constructors a filter literal reaches (datatypes __new__/__init__, pintutil.to_pint/to_haystack) call nothing on program-wide objects (unit registry, module tables).  Not decided: '
         'absence of effects as an observation of executions.'),
     'rule_text': 'obligations = fragments reaching exec (per append/extend site), literal classes x repr conversions, '
                  'shape facts, ambient-effect call scan',
@@ -46,6 +46,73 @@ def run(ctx):
     _closedness(ctx, m, g)
     _shape(ctx, m)
     _ambient(ctx, m)
+    _constructors(ctx, m)
+
+
+PURE_MODULES = ('base64', 'binascii', 'six', 're', 'datetime', 'math', 'numbers', 'copy')
+STATE_CHANGERS = ('define', 'register', 'load_definitions', 'enable_contexts', 'setdefault', 'update', 'add', 'append', 'extend',
+                  'insert', 'pop', 'remove', 'clear', 'discard', 'popitem', 'default_format')
+
+
+def _constructors(ctx, m):
+    """(D5) the constructors of the values a filter literal can build (datatypes.py) and the unit translation they use
+    (pintutil.to_pint / to_haystack) call nothing on program-wide objects: a literal in a filter cannot register
+    units, fill module tables or declare globals."""
+    n = 0
+    for modname, pick in (('datatypes', lambda f: f.name in ('__new__', '__init__')),
+                          ('pintutil', lambda f: f.name in ('to_pint', 'to_haystack'))):
+        try:
+            mod = m.mod(modname)
+        except AnalysisError as e:
+            ctx.error('C12.D5', str(e))
+            continue
+        F = 'hszinc/%s.py' % modname
+        for fn in [x for x in ast.walk(mod.tree) if isinstance(x, ast.FunctionDef) and pick(x)]:
+            n += 1
+            owner = getattr(getattr(fn, '_parent', None), 'name', '')
+            q = ('%s.%s' % (owner, fn.name)) if owner else fn.name
+            local = {a.arg for a in fn.args.args} | {x.id for x in ast.walk(fn) if isinstance(x, ast.Name) and isinstance(x.ctx, ast.Store)}
+            bad = None
+            unknown = None
+            for x in walk_no_nested(fn):
+                if isinstance(x, (ast.Global, ast.Nonlocal)):
+                    written = [y for y in walk_no_nested(fn) if isinstance(y, ast.Name) and y.id in x.names
+                               and isinstance(y.ctx, (ast.Store, ast.Del))]
+                    if written:
+                        bad = (written[0], 'rebinds the module global %s' % written[0].id)
+                    local -= set(x.names)
+                if isinstance(x, (ast.Assign, ast.AugAssign)):
+                    for t in (x.targets if isinstance(x, ast.Assign) else [x.target]):
+                        b = t
+                        while isinstance(b, (ast.Attribute, ast.Subscript)):
+                            b = b.value
+                        if isinstance(t, (ast.Attribute, ast.Subscript)) and isinstance(b, ast.Name) and b.id not in local:
+                            bad = (x, 'stores into the program-wide object %s' % b.id)
+                if isinstance(x, ast.Call) and isinstance(x.func, ast.Attribute):
+                    b = x.func.value
+                    while isinstance(b, (ast.Attribute, ast.Subscript)):
+                        b = b.value
+                    if isinstance(b, ast.Call):
+                        continue        # super().__init__ and the like
+                    if not isinstance(b, ast.Name) or b.id in local or b.id in PURE_MODULES or b.id in ('bytearray', 'bytes', 'str'):
+                        continue
+                    if x.func.attr in STATE_CHANGERS:
+                        bad = (x, 'calls %s on the program-wide object %s' % (x.func.attr, b.id))
+                    else:
+                        unknown = (x, b.id)
+            if bad:
+                ctx.violation('C12.D5', '%s::%s' % (F, q), norm(bad[0]),
+                              'grid.filter(\'power ==5zorkmid\') (a number literal with a made-up unit, Pint mode): building the '
+                              'literal %s -- afterwards the name is known program-wide (hszinc.ureg) although only a filter '
+                              'was evaluated' % bad[1],
+                              'a value constructor reachable from filter literals %s' % bad[1], file=F, line=bad[0].lineno,
+                              engine='E7')
+            elif unknown:
+                ctx.error('C12.D5', '%s:%d %s calls `%s` on the module-level object %s: effect not tabled; cannot decide'
+                          % (F, unknown[0].lineno, q, norm(unknown[0].func), unknown[1]))
+            else:
+                ctx.ob('C12.D5', '%s touches no program-wide object' % q, True, '%s:%d' % (F, fn.lineno))
+    ctx.floor('value constructors analysed', n, 6)
 
 
 # ------------------------------------------------------------------ D1
